@@ -85,14 +85,44 @@ def specScan (S : RuleSet) (sc : Nat) (bol : Bool) (inp : List UInt8) : Nat :=
       if st'.isEmpty then len else go st' rest' (len + 1)
   go (S.startState sc bol) inp 0
 
+/-- bytes the table-driven scanner has to see (see `Matcher.need`) -/
+def tableNeed (T : Tables) (interactive : Bool) (sc : Nat) (bol : Bool) (inp : List UInt8) : Nat :=
+  let deadEnd (st : DState) : Bool :=
+    (List.range T.csize).all fun c => match T.step st (UInt8.ofNat c) with
+      | .jam => true
+      | _ => false
+  let rec go (st : DState) (rest : List UInt8) (len : Nat) : Nat :=
+    match rest with
+    | [] => len
+    | c :: rest' =>
+      match T.step st c with
+      | .jam => len + 1
+      | .bad => len + 1
+      | st' => if interactive && deadEnd st' then len + 1 else go st' rest' (len + 1)
+  go (T.startState sc bol) inp 0
+
+def specNeed (S : RuleSet) (interactive : Bool) (sc : Nat) (bol : Bool) (inp : List UInt8) : Nat :=
+  let deadEnd (st : SState) : Bool :=
+    (List.range S.csize).all fun c => (st.step (UInt8.ofNat c)).isEmpty
+  let rec go (st : SState) (rest : List UInt8) (len : Nat) : Nat :=
+    match rest with
+    | [] => len
+    | c :: rest' =>
+      let st' := st.step c
+      if st'.isEmpty then len + 1
+      else if interactive && deadEnd st' then len + 1 else go st' rest' (len + 1)
+  go (S.startState sc bol) inp 0
+
 def tableMatcher (T : Tables) (infos : Array RuleInfo) : Matcher where
   cands := tableCands T
   headLen := headLenOf infos
   scan := tableScan T
+  need := tableNeed T
 
 def specMatcher (S : RuleSet) (infos : Array RuleInfo) : Matcher where
   cands := specCands S
   headLen := headLenOf infos
   scan := specScan S
+  need := specNeed S
 
 end FlexVerif
